@@ -133,7 +133,7 @@ fn run_e1_property(id: &str, thorough: bool, ev: &mut Evidence, t0: Instant) {
     let cap = if thorough { Duration::from_secs(3300) } else { Duration::from_secs(50) };
     let deadline = Some(t0 + cap);
     let seeds = families::fs(&verif_dir().join("seeds"));
-    let mut fams: Vec<families::Family> = vec![families::f1(), families::f2(), families::fd(2, 2, families::all_anchors(2, 2), 3, "all 49 anchors"), seeds];
+    let mut fams: Vec<families::Family> = vec![families::f1(), families::f2(), families::fd(2, 2, families::all_anchors(2, 2), 3, "all 49 anchors"), seeds, families::fsetup(if thorough { 12 } else { 4 }, if thorough { 8 } else { 3 }), if thorough { families::fplus(families::interior_squares(), 3, "every interior square") } else { families::fplus(vec![18, 21, 42, 45, 49, 35, 34, 14], 3, "the 4 traps, b2, d4, c4, g7") }];
     if thorough {
         fams.push(families::f3w(None, &families::ALL_KINDS, "all 36 windows, all 12 kinds"));
         let a23: Vec<(usize, usize)> = vec![(0, 0), (1, 1), (4, 1), (2, 4), (5, 5), (3, 3)];
@@ -156,7 +156,7 @@ fn run_e1_property(id: &str, thorough: bool, ev: &mut Evidence, t0: Instant) {
         } else {
             0
         };
-        let o = e1::E1Opts { prop: id, checks: checks | extra, move_number: 2, deadline, chunk: 1, roots_only: false };
+        let o = e1::E1Opts { prop: id, checks: checks | extra, move_number: 2, deadline, chunk: 1, roots_only: false, max_turns: 1 };
         let r = e1::run_family(fam, &o);
         eprintln!("  {} : roots={} states={} transitions={} {:.1}s {}", r.family, r.stats.roots, r.stats.states, r.stats.transitions, r.wall_s, r.note);
         if fam.name.starts_with("F1 ") {
@@ -167,9 +167,18 @@ fn run_e1_property(id: &str, thorough: bool, ev: &mut Evidence, t0: Instant) {
             break;
         }
     }
+    if thorough && !report::stopped() {
+        // FS2: two full turns from the two opening seeds (first two diagrams of seeds/handmade.txt), Gold to move
+        let fs2 = families::fs_first(&verif_dir().join("seeds"), 2);
+        let o = e1::E1Opts { prop: id, checks, move_number: 2, deadline, chunk: 1, roots_only: false, max_turns: 2 };
+        let mut r = e1::run_family(&fs2, &o);
+        r.family = format!("FS2 two full turns from {}", r.family);
+        eprintln!("  {} : roots={} states={} transitions={} {:.1}s {}", r.family, r.stats.roots, r.stats.states, r.stats.transitions, r.wall_s, r.note);
+        ev.families.push(r);
+    }
     if id == "C03" && !report::stopped() {
         for mn in [1usize, 3, 50, 1_000_000, (1usize << 32) + 1] {
-            let o = e1::E1Opts { prop: id, checks, move_number: mn, deadline, chunk: 1, roots_only: false };
+            let o = e1::E1Opts { prop: id, checks, move_number: mn, deadline, chunk: 1, roots_only: false, max_turns: 1 };
             let mut r = e1::run_family(&families::f1(), &o);
             r.family = format!("{} — starting move number {}", r.family, mn);
             ev.families.push(r);
@@ -178,7 +187,7 @@ fn run_e1_property(id: &str, thorough: bool, ev: &mut Evidence, t0: Instant) {
     // determinism: the same family explored with a different thread partition must give identical counts and digest
     if let (Some(f1), false) = (first_f1, report::stopped()) {
         let pool = rayon::ThreadPoolBuilder::new().num_threads(3).build().unwrap();
-        let o = e1::E1Opts { prop: id, checks, move_number: 2, deadline: None, chunk: 1, roots_only: false };
+        let o = e1::E1Opts { prop: id, checks, move_number: 2, deadline: None, chunk: 1, roots_only: false, max_turns: 1 };
         let again = pool.install(|| e1::run_family(&families::f1(), &o));
         if again.stats.states != f1.states || again.stats.transitions != f1.transitions || again.stats.digest != f1.digest {
             println!("MACHINERY-ERROR: re-exploring F1 with a different thread partition gave different counts/digest ({} / {} / {:016x} vs {} / {} / {:016x})", again.stats.states, again.stats.transitions, again.stats.digest, f1.states, f1.transitions, f1.digest);
@@ -230,10 +239,10 @@ fn run_c15(thorough: bool, ev: &mut Evidence, t0: Instant) {
     ev.families.push(e4::c15_short_strings(id, if thorough { 6 } else { 5 }));
     let deadline = Some(t0 + Duration::from_secs(if thorough { 3600 } else { 45 }));
     // round trips over reachable states: every state of F1 (all step prefixes), every F2 root, every FS state of one turn
-    let o_all = e1::E1Opts { prop: id, checks: C15, move_number: 2, deadline, chunk: 1, roots_only: false };
+    let o_all = e1::E1Opts { prop: id, checks: C15, move_number: 2, deadline, chunk: 1, roots_only: false, max_turns: 1 };
     ev.families.push(e1::run_family(&families::f1(), &o_all));
     for mn in [1usize, 3, 50, 1_000_000, (1usize << 32) + 1] {
-        let o = e1::E1Opts { prop: id, checks: PARSE_LINK, move_number: mn, deadline, chunk: 1, roots_only: true };
+        let o = e1::E1Opts { prop: id, checks: PARSE_LINK, move_number: mn, deadline, chunk: 1, roots_only: true, max_turns: 1 };
         let mut r = e1::run_family(&families::f1(), &o);
         r.family = format!("{} — roots only, starting move number {}", r.family, mn);
         ev.families.push(r);
@@ -241,14 +250,14 @@ fn run_c15(thorough: bool, ev: &mut Evidence, t0: Instant) {
     if thorough {
         ev.families.push(e1::run_family(&families::f2(), &o_all));
     } else {
-        let o = e1::E1Opts { prop: id, checks: PARSE_LINK, move_number: 2, deadline, chunk: 1, roots_only: true };
+        let o = e1::E1Opts { prop: id, checks: PARSE_LINK, move_number: 2, deadline, chunk: 1, roots_only: true, max_turns: 1 };
         let mut r = e1::run_family(&families::f2(), &o);
         r.family = format!("{} — roots only", r.family);
         ev.families.push(r);
     }
     let fs = families::fs(&verif_dir().join("seeds"));
     if fs.n > 0 {
-        let o = e1::E1Opts { prop: id, checks: PARSE_LINK, move_number: 2, deadline, chunk: 1, roots_only: !thorough };
+        let o = e1::E1Opts { prop: id, checks: PARSE_LINK, move_number: 2, deadline, chunk: 1, roots_only: !thorough, max_turns: 1 };
         ev.families.push(e1::run_family(&fs, &if thorough { e1::E1Opts { checks: C15, ..o } } else { o }));
     }
     ev.nontrivial_rule = "strings: every string of the stated grammar / length is one case, non-trivial = oversized diagrams + accepted strings; states: every visited state printed and parsed back (counter parse_links)".into();
@@ -369,7 +378,7 @@ fn replay(path: &str) -> i32 {
             // re-evaluate the oracles of this property along the one recorded path
             if root_text != "initial" && !explorer.starts_with("E1x4") && !explorer.starts_with("E2x4") {
                 if let Ok((board, gold, mn)) = families::board_from_diagram(root_text) {
-                    let root = RootInfo { explorer: "replay", family: "replay".into(), idx: 0, board, gold, move_number: mn, config: serde_json::Value::Null };
+                    let root = RootInfo { how: RootHow::Constructed, explorer: "replay", family: "replay".into(), idx: 0, board, gold, move_number: mn, config: serde_json::Value::Null };
                     let mut ctx = Ctx::new(check_bit(&prop) | if prop == "C01" { 0 } else { 0 }, &prop, &root);
                     let rr = std::panic::catch_unwind(std::panic::AssertUnwindSafe(|| {
                         let mut node = root_node(&root);
